@@ -76,6 +76,9 @@ HARMLESS = [
     ('C14', 'sc3/seq/patterns/eventpatterns.py', "                queue.add(now + float(outevent('delta')), stream)", "                child_delta = float(outevent('delta'))\n                queue.add(now + child_delta, stream)", 'local for the child delta in Ppar'),
     ('C13', 'sc3/seq/patterns/listpatterns.py', "            inval = yield from stm.embed(lst[(i + offset) % size], inval)",
      "            item = lst[(i + offset) % size]\n            inval = yield from stm.embed(item, inval)", 'local for the item in Pser'),
+    ('C06', 'sc3/base/netaddr.py', "            acc_size += s + 4  # Element size bytes.\n            clump.append(e)", "            clump.append(e)\n            acc_size += s + 4  # Element size bytes.", 'clump append before the size update (independent statements)'),
+    ('C17', 'sc3/synth/buffer.py', "        msg = ['/b_free', self._bufnum, fn.value(completion_msg, self)]", "        completion = fn.value(completion_msg, self)\n        msg = ['/b_free', self._bufnum, completion]", 'local for the completion message in Buffer.free'),
+    ('C17', 'sc3/synth/server.py', "            for i in range(block.address, block.address + block.size):\n                bundle.append(['/b_free', i])", "            first = block.address\n            for i in range(first, first + block.size):\n                bundle.append(['/b_free', i])", 'local for the first number of a block in _free_all_buffers'),
 ]
 
 BREAKING = [
@@ -132,6 +135,9 @@ BREAKING = [
     ('C14', 'sc3/seq/patterns/eventpatterns.py', "                nexttime = queue.peek()[0]\n                outevent['delta'] = nexttime - now", "                nexttime = queue.peek()[0]\n                outevent['delta'] = nexttime", 'Ppar delta is an absolute time'),
     ('C13', 'sc3/seq/patterns/filterpatterns.py', "                lst = []\n                n = n_stream.next(inval)", "                n = n_stream.next(inval)\n                lst = []", 'Pclump resets its buffer after reading the size'),
     ('C15', 'sc3/seq/pattern.py', "        self.args = args\n        self._is_event_pattern = (\n            isinstance(a, Pattern) and a.is_event_pattern)", "        self.args = tuple(stm.stream(x) for x in args)\n        self._is_event_pattern = (\n            isinstance(a, Pattern) and a.is_event_pattern)", 'Pnarop casts its operands to streams once'),
+    ('C06', 'sc3/base/netaddr.py', "                res.append(clump)\n                clump = []\n                acc_size = 16  # Bundle prefix + Timetag bytes.", "                res.append(clump)\n                clump = []", 'clump size not reset when a new clump is opened'),
+    ('C17', 'sc3/synth/buffer.py', "        msg = ['/b_free', self._bufnum, fn.value(completion_msg, self)]\n        self._bufnum = self._frames = self._channels = None", "        self._bufnum = self._frames = self._channels = None\n        msg = ['/b_free', self._bufnum, fn.value(completion_msg, self)]", 'Buffer.free builds its message after the wipe'),
+    ('C17', 'sc3/synth/server.py', "            for i in range(block.address, block.address + block.size):", "            for i in range(block.address, block.address + block.size - 1):", 'last number of every block never freed on the server'),
 ]
 
 
